@@ -190,6 +190,14 @@ func (s *c04Sim) drawVariants(t *rapid.T) {
 			g.lightMinAnno = rapid.Bool().Draw(t, "lightMinByAnnotation")
 		}
 	}
+	// re-submitted jobs need groups made of PodGroup gangs only: force that now and then
+	for _, members := range s.groups {
+		if len(members) >= 2 && rapid.IntRange(0, 3).Draw(t, "allPodGroups") == 3 {
+			for _, gi := range members {
+				s.gangs[gi].crd, s.gangs[gi].light, s.gangs[gi].lightMinAnno = true, false, false
+			}
+		}
+	}
 	for _, members := range s.groups {
 		if len(members) < 2 || !rapid.Bool().Draw(t, "lateBundling") {
 			continue
@@ -198,6 +206,7 @@ func (s *c04Sim) drawVariants(t *rapid.T) {
 			if g := s.gangs[gi]; g.crd {
 				g.lateAnno, g.groupAnno = g.groupAnno, ""
 				g.declGroup = []int{g.idx}
+				g.everStandalone = true
 			}
 		}
 	}
@@ -215,7 +224,54 @@ func (s *c04Sim) variantRules() []c04Rule {
 			s.modelPG(g, "update")
 			s.c.Class("variant:group-bundled-by-a-later-podgroup-update")
 		}},
+		s.resubmitRule(),
 	}
+}
+
+// resubmitRule: a job made of a multi-gang group of PodGroups is deleted as a whole (all its PodGroups, and its pods at the
+// API: their informer deletes arrive later through the ordinary deliver rule) and, mostly at once, submitted again with
+// the same names and annotations; the pods of the new run are created by the ordinary rules (the pod budget grows).
+func (s *c04Sim) resubmitRule() c04Rule {
+	whole := func(g *c04Gang) bool { // g is the first gang of a group of >= 2 PodGroup gangs that all exist
+		m := s.groups[g.grp]
+		if len(m) < 2 || m[0] != g.idx {
+			return false
+		}
+		for _, gi := range m {
+			if gg := s.gangs[gi]; !gg.crd || !gg.pgExists {
+				return false
+			}
+		}
+		return true
+	}
+	return c04Rule{name: "groupResubmit", w: 3, gang: whole, run: func(t *rapid.T, _ *c04Pod, g *c04Gang) {
+		s.c.Class("variant:whole-multi-gang-podgroup-group-deleted")
+		s.c.ClassIf(s.once[g.grp], "variant:whole-multi-gang-podgroup-group-deleted-after-it-was-bound-once")
+		deletePods := rapid.IntRange(0, 3).Draw(t, "deletePods") > 0
+		again := rapid.IntRange(0, 3).Draw(t, "submitAgain") > 0
+		for _, gi := range s.groups[g.grp] {
+			gg := s.gangs[gi]
+			gg.pgExists = false
+			s.cache.onPodGroupDelete(gg.pgObj)
+			s.logf("podgroup delete %s (whole group)", gg.id)
+			s.modelPG(gg, "delete")
+		}
+		if deletePods {
+			for _, p := range s.pods {
+				if p.gang.grp == g.grp && !p.apiDeleted {
+					p.apiDeleted = true
+					s.maxPods++
+					s.logf("api delete %s", p.name)
+				}
+			}
+		}
+		if again {
+			for _, gi := range s.groups[g.grp] {
+				s.pgAdd(t, s.gangs[gi])
+			}
+			s.resubmitted[g.grp] = true
+		}
+	}}
 }
 
 func (s *c04Sim) finishVariants() {
